@@ -485,7 +485,7 @@ func c09ExecFollow(sc c09Follow) (string, map[string]bool) {
 		deadline := time.Now().Add(limit)
 		stableSince := time.Now()
 		lb, la := counts()
-		for time.Now().Before(deadline) {
+		for !deadlinePassed(deadline) {
 			b, a := counts()
 			if b != lb || a != la || b != a || !st.IsOpen() {
 				lb, la, stableSince = b, a, time.Now()
@@ -516,7 +516,7 @@ func c09ExecFollow(sc c09Follow) (string, map[string]bool) {
 		if b == a && st.IsOpen() && cl.liveRange() == want {
 			break
 		}
-		if time.Now().After(deadline) {
+		if deadlinePassed(deadline) {
 			b, a := counts()
 			return fmt.Sprintf("N=%d: the membership settled at member %d of %d; the member streams vBuckets %s, a member with that number streams %s (rebalances begun %d, finished %d)",
 				sc.N, last.M, last.T, cl.liveRange(), want, b, a), labels
@@ -806,7 +806,7 @@ func c09ExecPush(sc c09Push) string {
 				if ok, _ := within(3*time.Second, func() { got = disc.Get() }); !ok {
 					return fmt.Sprintf("step %d: the leader pushed %d/%d to the follower, its discovery object still has no numbering", i, st.M, st.T)
 				}
-				if c09Range(got) == c09Range(want) || time.Now().After(dl) {
+				if c09Range(got) == c09Range(want) || deadlinePassed(dl) {
 					break
 				}
 			}
